@@ -9,7 +9,7 @@ PID = "C09"
 
 def gen_cases(v, out):
     n = 300 if v.tier == "quick" else 6000
-    rc, o = C.sh([C.HARNESS, "wal", "-out", out, "-n", str(n), "-seed", str(v.seed)], timeout=3000)
+    rc, o = C.sh([C.harness_bin("wal"), "wal", "-out", out, "-n", str(n), "-seed", str(v.seed)], timeout=3000)
     return rc == 0, o
 
 
@@ -22,7 +22,7 @@ def run(v):
     if not ok:
         v.violation("C09/runner-build", o[-1500:], {"theorem_or_correspondence": "extraction of Wal/Entry.v"}, False)
         return
-    ok, o = C.build_harness()
+    ok, o = C.build_harness("wal")
     if not ok:
         v.violation("C09/harness-build", "harness does not build against the current /repo tree: " + o[-1500:],
                     {"theorem_or_correspondence": "correspondence wal_run (harness build)"}, False)
@@ -76,12 +76,12 @@ def replay(v, path):
         print("replay file names no input:", rep["replay"].get("theorem_or_correspondence"))
         return 1
     C.build_runner()
-    C.build_harness()
+    C.build_harness("wal")
     out = os.path.join(C.WORK, PID, "replay")
     os.makedirs(out, exist_ok=True)
     src = os.path.join(out, "in.txt")
     open(src, "w").write("\n".join(lines) + "\n")
-    rc, o = C.sh([C.HARNESS, "wal", "-out", out, "-replay", src], timeout=600)
+    rc, o = C.sh([C.harness_bin("wal"), "wal", "-out", out, "-replay", src], timeout=600)
     if rc != 0:
         print(o)
         return 2
